@@ -4,6 +4,7 @@ front of the real SSO server, net/http/cookiejar) in which every logout variant 
 import json
 
 from lib import vf
+from lib.props import _sesskey
 from lib.machine import authenticated
 from lib.props import _mach
 
@@ -136,3 +137,4 @@ def run(ctx):
         "standalone: one ingress); two ingresses with nested paths on one host / the prefix of another host's ingress leave the cookie in the browser - "
         "the known findings of C14 (c14-nested-ingress-clear-path, c14-cross-ingress-clear-path, Properties/C14.v c14_nested_prefix_refuted), reported there",
     ]
+    _sesskey.run_sesskey(ctx, "C05")
